@@ -1,5 +1,6 @@
 import SimilarVerif.Props.C01
 import SimilarVerif.Lemmas.HookFail
+import SimilarVerif.Lemmas.ReplaceTotal
 /-!
 # C08 — hook protocol: finish once and last; a hook error aborts the diff unchanged
 
@@ -163,3 +164,32 @@ theorem patience_finish_once_last (E : Env) (os oe ns ne : Nat) (w : World) (r' 
   finish_once_last E os oe ns ne r'.trace (C01.patience_valid_if_returns E os oe ns ne w r' w' ho hn hb h)
 
 end SimilarVerif.C08
+
+namespace SimilarVerif.C08
+open SimilarVerif Spec
+
+/-- **The run behind `Replace` alone returns** (totality, every algorithm, every clock, in-bounds ranges): no
+algorithm ever calls `replace` (`raw` has no `replace` op), so the two `debug_assert_eq!` of `Replace` never
+fire on the valid raw stream; the run against `Replace` over the never-failing recording hook returns, with the
+clock of the raw run, and the hook has been told `out` followed by exactly one `finish`, where `out` is what
+`Replace` makes of the raw stream (`replaceOut raw`, Lemmas/Replace.lean) — a valid alternating script. -/
+theorem replace_alone_total (alg : Alg) (E : Env) (os oe ns ne : Nat) (w : World)
+    (hr : Headline.RangesInBounds E os oe ns ne) :
+    ∃ (raw out : List Op) (rs : RState) (w' : World),
+      rawTrace alg E os oe ns ne w = .ok ({ trace := raw.map Call.op ++ [.finish] }, w') ∧
+      NoReplaceOp raw ∧
+      diffWith alg E (replaceHook recHook) os oe ns ne ({}, {}) w =
+        .ok ((rs, { trace := out.map Call.op ++ [.finish] }), w') ∧
+      (∀ w0, replaceOut raw w0 = .ok ((rs, { trace := out.map Call.op ++ [.finish] }), w0)) ∧
+      Walk (eqB E) os ns out oe ne ∧ Alternating out :=
+  ReplaceTotal.replace_stack_total alg E os oe ns ne w hr
+
+/-- no algorithm calls `replace` on its hook: a hook that panics on `replace` is as good as the hook itself -/
+theorem no_algorithm_calls_replace {σ} (h : Hook σ) (alg : Alg) (E : Env) (os oe ns ne : Nat) (s : σ) (w : World) :
+    diffWith alg E (Headline.guardReplace h) os oe ns ne s w = diffWith alg E h os oe ns ne s w :=
+  ReplaceTotal.diffWith_guard h alg E os oe ns ne s w
+
+end SimilarVerif.C08
+
+#print axioms SimilarVerif.C08.replace_alone_total
+#print axioms SimilarVerif.C08.no_algorithm_calls_replace
